@@ -106,7 +106,7 @@ fn read_step<const T: usize>() {
     }
     let i: usize = kani::any();
     kani::assume(i < 8);
-    kani::cover!(want == T && T > 0);
+    kani::cover!(want > 0 && want == if T < 3 { T } else { 3 });
     if i < want {
         assert!(buf[i] == data[pos + i], "bytes read differ from the file content at the cursor");
     } else {
